@@ -2,7 +2,8 @@
    Determinism of encoding is definitional: every enc_X is a Gallina function. *)
 From HV Require Import Base.Prelude Base.Outcome Base.Bytes Model.CodecMsg Proofs.CodecMsg
   Model.CodecType Proofs.CodecType Model.CodecAttr Proofs.CodecAttr
-  Model.CodecSuper Proofs.CodecSuper Model.CodecOhdr Proofs.CodecOhdr.
+  Model.CodecSuper Proofs.CodecSuper Model.CodecOhdr Proofs.CodecOhdr
+  Model.CodecLink Proofs.CodecLink.
 
 Theorem C11_dataspace_roundtrip : forall x, wf_dataspace x = true ->
   dec_dataspace (enc_dataspace x) = Ok (proj_dataspace x).
@@ -106,3 +107,61 @@ Theorem C11_ohdr_v1_refuted :
     dec_ohdr false (enc_ohdr_v1_gen false x ++ [0]) 0 <> Ok (proj_ohdr_v1 x 0).
 Proof. exact ohdr_v1_refuted. Qed.
 Print Assumptions C11_ohdr_v1_refuted.
+
+(* link message (hard / soft / external; every combination of the optional fields and name-length widths).
+   proj_link: for a soft link the decoder returns the path without the 2-byte length that the encoder
+   expects inside LinkValue (C11_link_soft_reencode_refuted: re-encoding a parsed soft link gives other bytes) *)
+Theorem C11_link_roundtrip : forall os x, wf_link os x = true ->
+  dec_link os (enc_link x) = Ok (proj_link x).
+Proof. exact link_roundtrip. Qed.
+Print Assumptions C11_link_roundtrip.
+
+Theorem C11_link_len : forall x, lk_version x = 1 -> blen (enc_link x) = size_link x.
+Proof. exact link_blen. Qed.
+Print Assumptions C11_link_len.
+
+Theorem C11_link_soft_reencode_refuted :
+  wf_link 8 soft_link_witness = true /\
+  match dec_link 8 (enc_link soft_link_witness) with
+  | Ok y => bytes_eqb (enc_link y) (enc_link soft_link_witness) = false /\
+            bytes_eqb (lk_value y) (lk_value soft_link_witness) = false
+  | _ => False
+  end.
+Proof. exact link_soft_reencode_refuted. Qed.
+Print Assumptions C11_link_soft_reencode_refuted.
+
+(* link-info message: exact identity *)
+Theorem C11_linkinfo_roundtrip : forall sb x, wf_linkinfo sb x = true ->
+  dec_linkinfo sb (enc_linkinfo sb x) = Ok x.
+Proof. exact linkinfo_roundtrip. Qed.
+Print Assumptions C11_linkinfo_roundtrip.
+
+Theorem C11_linkinfo_len : forall sb x, wf_linkinfo sb x = true -> blen (enc_linkinfo sb x) = size_linkinfo sb x.
+Proof. exact linkinfo_blen. Qed.
+Print Assumptions C11_linkinfo_len.
+
+(* attribute-info message: exact identity for little-endian superblocks; for big-endian ones the encoder
+   honours the byte order and the decoder (readAddress) does not *)
+Theorem C11_attrinfo_roundtrip : forall sb x, wf_attrinfo sb x = true ->
+  dec_attrinfo sb (enc_attrinfo sb x) = Ok x.
+Proof. exact attrinfo_roundtrip. Qed.
+Print Assumptions C11_attrinfo_roundtrip.
+
+Theorem C11_attrinfo_len : forall sb x, wf_attrinfo sb x = true -> blen (enc_attrinfo sb x) = size_attrinfo sb x.
+Proof. exact attrinfo_blen. Qed.
+Print Assumptions C11_attrinfo_len.
+
+Theorem C11_attrinfo_be_refuted :
+  exists sb x, sb_bigendian sb = true /\ sb_ok sb = true /\
+    dec_attrinfo sb (enc_attrinfo sb x) <> Ok x.
+Proof. exact attrinfo_be_refuted. Qed.
+Print Assumptions C11_attrinfo_be_refuted.
+
+(* symbol-table message (8-byte offsets, little-endian: what the writer supports) *)
+Theorem C11_symtab_roundtrip : forall x, wf_symtab x = true -> dec_symtab false (enc_symtab 8 x) = Ok x.
+Proof. exact symtab_roundtrip. Qed.
+Print Assumptions C11_symtab_roundtrip.
+
+Theorem C11_symtab_len : forall x, blen (enc_symtab 8 x) = 16.
+Proof. exact symtab_blen. Qed.
+Print Assumptions C11_symtab_len.
